@@ -5,6 +5,7 @@ import (
 	"go/ast"
 	"go/token"
 	"go/types"
+	"sort"
 	"strings"
 
 	"golang.org/x/tools/go/cfg"
@@ -19,7 +20,7 @@ func init() {
 		Explanation: "Structural necessary conditions of the export/import round trip decided on every CFG path of the exporter, its recursive helper, the id replacer and the importer (DESIGN.md §3/C15); YAML fidelity over all strings is NOT decided. " +
 			"R1 every listing call reachable from the exporter passes includeDeleted=false; the recursive helper lists the children of its node (no type filter), and on every path through the loop over them recurses into a NodeEdgeChildren built from the element and appends it to Children afterwards; the marshalled value is built from the root after the helper ran; in every function the exporter reaches (declared helper or function literal) each exit that follows a failed listing call or failed callee reports the failure (non-nil error result, or for a literal a non-nil error variable of the enclosing function, which the exporter examines); " +
 			"R2 a key rewrite `Key = B` in the exporter is reachable only when the key equals A, where the store's point writer of that kind of point maps B back to A; the compaction of edge points drops a point only when its type is tombstone and its value is 0 and never leaves its loop early (enumerated over the 4 valuations); " +
-			"R3 in the id replacer every identifier written to a node or to the text of a point was looked up in the one map under the OLD value and, on a miss, freshly generated and stored under that old value (empty node ids excepted); exactly the node-id points with non-empty text are rewritten (an empty reference stays empty); every node receives the parent given by its caller and every child is visited through its slice element with the parent's NEW id; " +
+			"R3 in the id replacer every identifier written to a node or to the text of a point was looked up in the one map under the OLD value and, on a miss, freshly generated and stored under that old value (empty node ids excepted); exactly the node-id points with non-empty text are rewritten (an empty reference stays empty); every node receives the parent given by its caller and every child is visited through its slice element with the parent's NEW id; a replacement split into several recursive walks of one enclosing function (assign the ids, then rewrite the references) is judged walk by walk against the duties it takes on, with one map shared by all walks (the order of the walks is not followed: shapes that depend on it are undecided); " +
 			"R6 the recursive import helper sends its own node on every successful path and recurses into every child; a skip keyed on the node id alone (not id and parent) is a violation because the send also creates the edge; " +
 			"R4 a string constant is concatenated to a point text only in the importer itself, on an element of Nodes[0].Points whose type is description; with preserve-ids no replacer call is reachable, without it every path to the send passes the replacer on &Nodes[0] with the requested parent; the top node's Parent is set to the requested parent before the send.",
 		Assumptions: []string{
@@ -60,7 +61,12 @@ type c15Anchors struct {
 	replacer           *kit.Func // function (literal) that holds the map accesses
 	replacerOuter      map[*kit.Func]bool
 	replHelpers        []*kit.Func // same-package helpers of the replacer that look up / generate ids
-	exportSet          []*kit.Func
+	// the replacement split into several recursive walks over the tree (literals of
+	// one enclosing function, e.g. "assign the ids" then "rewrite the references"):
+	// every walk in source order; a single entry (the replacer) in the usual shape
+	replPasses      []*kit.Func
+	replPassHelpers map[*kit.Func][]*kit.Func
+	exportSet       []*kit.Func
 }
 
 func c15IsNEC(t types.Type) bool { return kit.IsNamedType(t, dataPkg, "NodeEdgeChildren") }
@@ -337,6 +343,9 @@ func c15Find(c *kit.Ctx) *c15Anchors {
 		})
 		return
 	}
+	var full, cands []*kit.Func // full: map and uuid; cands: either (a pass of a split replacement)
+	a.replPassHelpers = map[*kit.Func][]*kit.Func{}
+	candMap := map[*kit.Func]bool{} // the walk (or a helper of it) indexes a string map
 	for _, f := range funcs {
 		if f.Body == nil {
 			continue
@@ -382,14 +391,115 @@ func c15Find(c *kit.Ctx) *c15Anchors {
 			frontier = next
 		}
 		if hasMap && hasUUID {
-			if a.replacer != nil {
-				c.Fatalf("two id replacers: %s and %s", a.replacer.Name, f.Name)
-			}
-			a.replacer, a.replHelpers = f, helpers
+			full = append(full, f)
+		}
+		if hasMap || hasUUID {
+			cands = append(cands, f)
+			a.replPassHelpers[f] = helpers
+			candMap[f] = hasMap
 		}
 	}
-	if a.replacer == nil {
-		c.Fatalf("id replacer (self-recursive, *data.NodeEdgeChildren parameter, map[string]string lookups and uuid generation in it or its helpers) not found in package client")
+	// several recursive walks are passes of one replacement when they are literals of
+	// the same enclosing function (they can then share the one map declared there)
+	sameOuter := func(fs []*kit.Func) bool {
+		for _, f := range fs {
+			if f.Lit == nil || f.Outer == nil || f.Outer != fs[0].Outer {
+				return false
+			}
+		}
+		return true
+	}
+	switch {
+	case len(full) == 0:
+		// no walk both looks up and generates: a split where one walk only generates
+		// and another only looks up is still one replacement (judged by R3)
+		nm := 0
+		for _, f := range cands {
+			if candMap[f] {
+				nm++
+			}
+		}
+		if len(cands) < 2 || nm == 0 || nm == len(cands) || !sameOuter(cands) {
+			c.Fatalf("id replacer (self-recursive, *data.NodeEdgeChildren parameter, map[string]string lookups and uuid generation in it or its helpers) not found in package client")
+		}
+		a.replacer, a.replPasses = cands[0], cands
+	case len(cands) == 1:
+		a.replacer = cands[0]
+	default:
+		a.replacer = full[0]
+		for _, f := range cands {
+			if !sameOuter([]*kit.Func{a.replacer, f}) {
+				for _, g := range full {
+					if g == f {
+						c.Fatalf("two id replacers: %s and %s", a.replacer.Name, f.Name)
+					}
+				}
+				// an unrelated recursive function that merely touches a string map or makes a uuid
+				continue
+			}
+			a.replPasses = append(a.replPasses, f)
+		}
+	}
+	if len(a.replPasses) < 2 {
+		a.replPasses = []*kit.Func{a.replacer}
+	}
+	// further recursive walks of the same enclosing function that take over a duty of
+	// the replacement (the node's ID or Parent, the text of its points) without
+	// touching the map themselves
+	if a.replacer.Lit != nil && a.replacer.Outer != nil {
+		for _, f := range funcs {
+			if f.Body == nil || f.Lit == nil || f.Outer != a.replacer.Outer {
+				continue
+			}
+			isPass := false
+			for _, g := range a.replPasses {
+				isPass = isPass || g == f
+			}
+			if isPass {
+				continue
+			}
+			var np *types.Var
+			for _, p := range f.Params() {
+				if _, isPtr := p.Type().(*types.Pointer); isPtr && c15IsNEC(p.Type()) {
+					np = p
+				}
+			}
+			rec := false
+			for _, call := range f.AllCalls(false) {
+				rec = rec || f.CalleeFunc(call) == f
+			}
+			if np == nil || !rec {
+				continue
+			}
+			isN := c15IsVar(f.Info(), np)
+			duty := false
+			ast.Inspect(f.Body, func(n ast.Node) bool {
+				if as, ok := n.(*ast.AssignStmt); ok {
+					for _, l := range as.Lhs {
+						if c15Field(f.Info(), l, "ID", isN) || c15Field(f.Info(), l, "Parent", isN) {
+							duty = true
+						}
+						if sel, ok := ast.Unparen(l).(*ast.SelectorExpr); ok && sel.Sel.Name == "Text" && kit.IsNamedType(f.Info().TypeOf(sel.X), dataPkg, "Point") {
+							duty = true
+						}
+					}
+				}
+				return true
+			})
+			if duty {
+				a.replPasses = append(a.replPasses, f)
+			}
+		}
+	}
+	sort.Slice(a.replPasses, func(i, j int) bool { return a.replPasses[i].Pos() < a.replPasses[j].Pos() })
+	seenH := map[*kit.Func]bool{}
+	for _, f := range a.replPasses {
+		for _, h := range a.replPassHelpers[f] {
+			if !seenH[h] {
+				seenH[h] = true
+				a.replHelpers = append(a.replHelpers, h)
+			}
+		}
 	}
 	// functions through which the replacer is entered: its enclosing functions and
 	// the functions on a *NodeEdgeChildren that call one of them
@@ -488,6 +598,7 @@ func (m *c15Msgs) settle(o *kit.Ob, okFmt string, a ...any) {
 func runC15(c *kit.Ctx) {
 	a := c15Find(c)
 	c.Analysed(a.exporter, a.importer, a.helper, a.replacer)
+	c.Analysed(a.replPasses...)
 	r1 := c.Rule("R1", "export lists live nodes only, descends into every child, reports failures", 8)
 	r2 := c.Rule("R2", "export noise reduction is undone by the store / drops only tombstone-0 edge points", 3)
 	r3 := c.Rule("R3", "id replacement is a function of the old id", 5)
